@@ -50,7 +50,7 @@ theorem C29_denied_unchanged (c : Caller) (s : St) :
    fun id act => fetchGuard_den (updateAuthSvc_den s id act), fun id => fetchGuard_den (deleteAuthSvc_den s id)⟩
 
 /-- Read wrappers never change anything (they are functions of the state). -/
-theorem C29_reads_pure (c : Caller) (s : St) {α : Type} (r : Except Err α) (f : α → Ans) : (ansRead s r f).1 = s := by
+theorem C29_reads_pure (s : St) {α : Type} (r : Except Err α) (f : α → Ans) : (ansRead s r f).1 = s := by
   unfold ansRead; cases r <;> rfl
 
 /-- Tokens: a successful CreateAuthorization means the caller presented an active token that, by the
